@@ -218,16 +218,19 @@ def hash_facts() -> list[str]:
         # what _get_state passes: (path, stat.st_mtime) — read from the source, fail-closed
         src = inspect.getsource(sys.modules["_pytask.nodes"]._get_state)
         calls = [n for n in ast.walk(ast.parse(src)) if isinstance(n, ast.Call) and getattr(n.func, "id", "") == "hash_path"]
-        if len(calls) != 1 or calls[0].keywords or len(calls[0].args) != 2:
-            raise _err("_get_state does not call hash_path(path, modification_time) exactly once")
-        a0, a1 = (ast.unparse(a) for a in calls[0].args)
-        if a0 != "path":
-            raise _err(f"_get_state passes {a0!r} as the path of hash_path")
+        # (one call per branch: the local one and, since the repair of F61, the protocol-UPath branch without ETag — every call
+        #  must pass the same two things)
+        if not calls or any(c.keywords or len(c.args) != 2 for c in calls):
+            raise _err("_get_state does not call hash_path(path, modification_time)")
         assigns = {ast.unparse(n.targets[0]): ast.unparse(n.value) for n in ast.walk(ast.parse(src))
                    if isinstance(n, ast.Assign) and len(n.targets) == 1}
-        mt = assigns.get(a1, a1)
-        if mt != "stat.st_mtime":
-            raise _err(f"_get_state keys the memo with {mt!r}, not stat.st_mtime")
+        for c in calls:
+            a0, a1 = (ast.unparse(a) for a in c.args)
+            if a0 != "path":
+                raise _err(f"_get_state passes {a0!r} as the path of hash_path")
+            mt = assigns.get(a1, a1)
+            if mt != "stat.st_mtime":
+                raise _err(f"_get_state keys the memo with {mt!r}, not stat.st_mtime")
         cn = _collect_norm_facts()
         pp = _parse_paths_fact()
     except Exception as e:
